@@ -3,7 +3,7 @@
    the alias row of every copy route, observed with `is` / shares_memory on the real objects. *)
 From Coq Require Import List Bool ZArith.
 Import ListNotations.
-From Molli Require Import Model.Alias Proofs.Alias Proofs.AliasVal Gen.CopyRoutes.
+From Molli Require Import Model.Alias Model.AliasChain Proofs.Alias Proofs.AliasVal Proofs.AliasChain Gen.CopyRoutes.
 
 (* Recorded findings are excluded BY NAME (class, route, field), e.g.
    [(KMolecule, RJoin KMolecule, FCharges)]; everything else the specification asks of such a route
@@ -212,6 +212,28 @@ Theorem C06_one_level_copy_shares_values : forall r g d h o h' o' cls sc al bl c
 Proof. exact one_level_copy_leaks. Qed.
 Print Assumptions C06_one_level_copy_shares_values.
 
+(* (6) CHAINS of copy routes -- a copy of a copy (of a copy ...), e.g. a cross-class constructor applied to an unpickled
+   object.  For EVERY heap, source and non-empty chain of rows that meet the specification: no step changes what ANY object
+   that existed before the chain shows (the source included), the final result is separated from every one of them, and it
+   is faithful to the object the chain started from on every field that all steps have to reproduce. *)
+Theorem C06_copy_chain : forall steps nds h o h' o',
+  steps <> [] -> steps_ok nds steps -> heap_wf h -> copy_chain steps h o = Some (h', o') ->
+  heap_wf h' /\ length h <= length h'
+  /\ (forall x, x < length h -> obs h' x = obs h x /\ separated h' o' x)
+  /\ exists ob ob', obs h o = Some ob /\ obs h' o' = Some ob' /\ faithful_on (meet_all nds) ob ob'.
+Proof. exact chain_sound. Qed.
+Print Assumptions C06_copy_chain.
+
+(* ... in particular every chain of routes of the regenerated table, k0 -r1-> dst_of k0 r1 -r2-> ... *)
+Theorem C06_chain_of_tabulated_routes : forall k rs ss ns,
+  rs <> [] -> route_chain table known k rs = Some (ss, ns) ->
+  forall h o h' o', heap_wf h -> copy_chain ss h o = Some (h', o') ->
+  heap_wf h' /\ length h <= length h'
+  /\ (forall x, x < length h -> obs h' x = obs h x /\ separated h' o' x)
+  /\ exists ob ob', obs h o = Some ob /\ obs h' o' = Some ob' /\ faithful_on (meet_all ns) ob ob'.
+Proof. exact (table_chain_sound known table C06_table_ok). Qed.
+Print Assumptions C06_chain_of_tabulated_routes.
+
 (* ---- non-vacuity: a two-atom, one-bond molecule with attributes, charges and coordinates *)
 Definition ex_heap : heap :=
   [ CMol 5 [1; 0; 1]%Z 1 (Some 2) (Some 3) (Some 4) None 5;
@@ -313,5 +335,26 @@ Example C06_deep_hypotheses_satisfiable :
       | _, _ => False
       end
   | _, _ => False
+  end.
+Proof. vm_compute. repeat split; reflexivity. Qed.
+
+(* a chain on the example molecule: pickle round trip, then Structure(...) of the restored object, then deepcopy of that.
+   The source shows what it showed, the result (a Structure: code 4) has the source's atoms, bond and coordinates, and
+   reaches nothing the source or either intermediate object reaches. *)
+Example C06_chain_hypotheses_satisfiable :
+  match route_chain table known KMolecule [(RPickle, ex_given); (RCtor KStructure, ex_given); (RDeepcopy, ex_given)] with
+  | Some (ss, ns) =>
+      length ss = 3 /\ n_bonds (meet_all ns) = true /\ n_coords (meet_all ns) = true /\ n_charges (meet_all ns) = false /\
+      match copy_chain ss ex_heap 0, copy_chain (firstn 1 ss) ex_heap 0, copy_chain (firstn 2 ss) ex_heap 0 with
+      | Some (h', o'), Some (_, o1), Some (_, o2) =>
+          obs_eqb (obs h' 0) (obs ex_heap 0) = true
+          /\ option_map o_cls (obs h' o') = Some 4%Z
+          /\ option_map o_coords (obs h' o') = option_map o_coords (obs ex_heap 0)
+          /\ option_map (fun ob => map strip_a (o_atoms ob)) (obs h' o') = option_map (fun ob => map strip_a (o_atoms ob)) (obs ex_heap 0)
+          /\ disjointb (reach h' o') (reach h' 0) = true /\ disjointb (reach h' o') (reach h' o1) = true
+          /\ disjointb (reach h' o') (reach h' o2) = true /\ rankedb h' = true
+      | _, _, _ => False
+      end
+  | None => False
   end.
 Proof. vm_compute. repeat split; reflexivity. Qed.
